@@ -28,7 +28,8 @@ func checkC05(c *Ctx) {
 	c.runDenseImplMC("IK_Low3High2", 1, "lowest 3 x highest 2 (array level)")
 	if !c.quick() {
 		c.runDenseImplMC("IK_High2High4", 2, "highest-collapsing 2 x 4 (array level)")
-		c.runDenseImplMC("IK_ExactLow2", 3, "dense x lowest-collapsing 2 (array level)")
+		// (the unbounded dense partner with array overhead 3 makes the large constants run for over half an hour: small ones)
+		c.runDenseImplMCSized("IK_ExactLow2", 3, "dense x lowest-collapsing 2 (array level)", false)
 	}
 	treePairs := []pair{{ModelKind{"low", 2}, ModelKind{"low", 4}}, {ModelKind{"high", 2}, ModelKind{"high", 4}},
 		{ModelKind{"low", 3}, ModelKind{"high", 2}}, {ModelKind{"exact", 0}, ModelKind{"low", 2}}}
